@@ -7,48 +7,40 @@ Local Open Scope N_scope.
 (* ------------------------------------------------------------------------------------------ *)
 (* agreement                                                                                  *)
 (* ------------------------------------------------------------------------------------------ *)
-Lemma agree_refl c : agree c c.
+Lemma agree_refl tx c : agree tx c c.
 Proof. constructor; auto. Qed.
-Lemma agree_trans c1 c2 c3 : agree c1 c2 -> agree c2 c3 -> agree c1 c3.
+Lemma agree_trans tx c1 c2 c3 : agree tx c1 c2 -> (forall p, mWin c2 p = mWin c1 p) -> agree tx c2 c3 -> agree tx c1 c3.
 Proof.
-  intros A B. constructor; intros.
-  - rewrite (ag_p _ _ B), (ag_p _ _ A). reflexivity.
-  - rewrite (ag_h _ _ B), (ag_h _ _ A). reflexivity.
-  - apply (ag_abs _ _ B), (ag_abs _ _ A); assumption.
-  - apply (ag_bot _ _ B), (ag_bot _ _ A); assumption.
+  intros A M B. constructor; intros.
+  - rewrite (ag_p _ _ _ B), (ag_p _ _ _ A). reflexivity.
+  - destruct (ag_u _ _ _ A p) as [E|E]; [|right; assumption].
+    destruct (ag_u _ _ _ B p) as [E'|E']; [left; congruence|right].
+    rewrite <- (own_view _ _ _ (ag_p _ _ _ A p)). assumption.
+  - rewrite (ag_h _ _ _ B), (ag_h _ _ _ A). reflexivity.
+  - destruct (ag_abs _ _ _ A _ _ _ H) as [H'|H']; [|right; assumption].
+    destruct (ag_abs _ _ _ B _ _ _ H') as [H''|H'']; [left; assumption|right]. rewrite <- M. assumption.
+  - apply (ag_bot _ _ _ B), (ag_bot _ _ _ A); assumption.
 Qed.
-Lemma agree_setp c p pg : pview pg = pview (getp c p) -> agree c (setp c p pg).
+Lemma agree_setp tx c p pg : pview pg = pview (getp c p) ->
+  (pg_used pg = pg_used (getp c p) \/ own (getp c p) tx = true) -> agree tx c (setp c p pg).
 Proof.
-  intros H. constructor; intros; auto.
-  rewrite getp_setp. destruct (p0 =? p) eqn:E; [apply N.eqb_eq in E; subst; assumption|reflexivity].
+  intros H Hu. constructor; intros; auto.
+  - rewrite getp_setp. destruct (p0 =? p) eqn:E; [apply N.eqb_eq in E; subst; assumption|reflexivity].
+  - rewrite getp_setp. destruct (p0 =? p) eqn:E; [apply N.eqb_eq in E; subst; assumption|left; reflexivity].
 Qed.
-Lemma agree_seth c h hp : hview hp = hview (geth c h) -> agree c (seth c h hp).
+Lemma agree_seth tx c h hp : hview hp = hview (geth c h) -> agree tx c (seth c h hp).
 Proof.
   intros H. constructor; intros; auto.
   rewrite geth_seth. destruct (h0 =? h) eqn:E; [apply N.eqb_eq in E; subst; assumption|reflexivity].
 Qed.
-Lemma agree_sett c t th :
-  (forall p h, absorbing (th_stk (gett c t)) p h = true -> absorbing (th_stk th) p h = true) ->
+Lemma agree_sett tx c t th :
+  (forall p h, absorbing (th_stk (gett c t)) p h = true -> absorbing (th_stk th) p h = true \/ mWin c p = 0%nat) ->
   (forall h, hd_bottom (th_stk (gett c t)) h = true -> hd_bottom (th_stk th) h = true) ->
-  agree c (sett c t th).
+  agree tx c (sett c t th).
 Proof.
   intros H1 H2. constructor; intros; auto; rewrite gett_sett; destruct (t0 =? t) eqn:E; auto;
     apply N.eqb_eq in E; subst; auto.
 Qed.
-
-(* bottom of a stack whose top changes *)
-Lemma bottom_cons f g r : bottom (f :: g :: r) = bottom (g :: r).
-Proof.
-  unfold bottom. cbn [rev]. destruct (rev r ++ [g]) eqn:E.
-  - destruct (rev r); discriminate.
-  - reflexivity.
-Qed.
-Lemma bottom_swap f f' r : r <> [] -> bottom (f :: r) = bottom (f' :: r).
-Proof. destruct r; [congruence|]. intros _. rewrite !bottom_cons. reflexivity. Qed.
-Lemma bottom_single f : bottom [f] = Some f.
-Proof. reflexivity. Qed.
-Lemma bottom_app_cons a f r : bottom (a ++ f :: r) = bottom (f :: r).
-Proof. induction a as [|x a IH]; [reflexivity|]. cbn [app]. destruct a; cbn [app] in *; rewrite bottom_cons; assumption. Qed.
 
 (* ------------------------------------------------------------------------------------------ *)
 (* block accounting: conservation                                                             *)
@@ -93,34 +85,75 @@ Lemma invB_same c c' :
   (forall p, pg_flag (getp c' p) = pg_flag (getp c p)) ->
   (forall p, mWin c' p = mWin c p) ->
   (forall p, mPw c' p = mPw c p) ->
-  (forall p, mD c (onp p) <= mD c' (onp p))%nat ->
+  (forall p, (mD c (onp p) <= mD c' (onp p))%nat
+             \/ (pg_flag (getp c p) <> NoD /\ pg_flag (getp c p) <> Freeing)) ->
   InvB c'.
 Proof.
   intros I Hf Hw Hp Hd. destruct (i_B _ I) as [W ND]. constructor.
   - intros p. rewrite Hf, Hw. apply W.
-  - intros p. rewrite Hf, Hp. intros H. specialize (ND p H). specialize (Hd p). lia.
+  - intros p. rewrite Hf, Hp. intros H. destruct (Hd p) as [Hd'|[H1 H2]].
+    + specialize (ND p H). lia.
+    + exfalso. destruct H as [H|H]; [contradiction|].
+      pose proof (mPw_le_mWin c p) as L. specialize (W p).
+      destruct (flag_eqb (pg_flag (getp c p)) Freeing) eqn:F; [apply flag_eqb_eq in F; contradiction|lia].
 Qed.
 
 (* ------------------------------------------------------------------------------------------ *)
 (* the structural part                                                                        *)
 (* ------------------------------------------------------------------------------------------ *)
-Lemma hd_okP_agree c c' th : agree c c' ->
+Lemma hd_fr_okP_agree tx c c' th fr : agree tx c c' ->
   (forall h, hp_del (geth c' h) = hp_del (geth c h)) ->
-  hd_okP c th -> hd_okP c' th.
+  hd_fr_okP c th fr -> hd_fr_okP c' th fr.
 Proof.
-  intros A Hd. unfold hd_okP.
+  intros A Hd.
   assert (Ha : forall p, pg_alive (getp c' p) = pg_alive (getp c p) /\ pg_heap (getp c' p) = pg_heap (getp c p)).
-  { intros p. pose proof (pview_eq _ _ (ag_p _ _ A p)) as (E1 & _ & _ & E4). auto. }
-  destruct (bottom (th_stk th)) as [[]|]; auto.
+  { intros p. pose proof (pview_eq _ _ (ag_p _ _ _ A p)) as (E1 & _ & E4). auto. }
+  destruct fr; cbn [hd_fr_okP]; auto.
   - intros H p. destruct (Ha p) as [E1 E2]. rewrite E1, E2. apply H.
   - intros [H1 H2]. split.
     + intros p. destruct (Ha p) as [E1 E2]. rewrite E1, E2. apply H1.
     + rewrite Hd. assumption.
 Qed.
+Lemma hd_okP_agree tx c c' th : agree tx c c' ->
+  (forall h, hp_del (geth c' h) = hp_del (geth c h)) ->
+  hd_okP c th -> hd_okP c' th.
+Proof. intros A Hd H fr Hin. apply (hd_fr_okP_agree tx c); auto. Qed.
 
-(* a step of thread t that keeps all views, all other threads, the backing heap and the delayed lists *)
+(* a step of thread t that keeps all views, all other threads and the backing heap *)
+Lemma invS_step_gen c c' t :
+  Inv c -> agree t c c' ->
+  (forall t', t' <> t -> gett c' t' = gett c t') ->
+  th_backing (gett c' t) = th_backing (gett c t) ->
+  (forall p, pg_alive (getp c' p) = false -> getp c' p = pg0) ->
+  (forall h, hp_alive (geth c' h) = false -> hp_del (geth c' h) = []) ->
+  (forall h, forallb (del_ok c' h) (hp_del (geth c' h)) = true) ->
+  stk_ok (th_stk (gett c' t)) = true ->
+  forallb (fr_ok c' t (gett c' t)) (th_stk (gett c' t)) = true ->
+  (forall t', hd_okP c' (gett c' t')) ->
+  InvS c'.
+Proof.
+  intros I A Ho Hb Hdead Hhd Hdel Hs Hf Hh. destruct (i_S _ I) as [S1 S2 S3 S4 S5 S6 S7 S8 S9].
+  assert (Hbk : forall t', th_backing (gett c' t') = th_backing (gett c t')).
+  { intros t'. destruct (N.eq_dec t' t) as [->|Hne]; [assumption|rewrite Ho by assumption; reflexivity]. }
+  constructor; auto.
+  - intros p Hp. pose proof (pview_eq _ _ (ag_p _ _ _ A p)) as (E1 & E2 & E4).
+    rewrite E1 in Hp. destruct (S2 p Hp) as [h [H1 H2]]. exists h. rewrite E4, E2. split; [assumption|].
+    rewrite (hown_view _ _ _ (ag_h _ _ _ A h)). assumption.
+  - intros t' bk. rewrite Hbk. intros H. destruct (S3 t' bk H) as [H1 H2].
+    pose proof (hview_eq _ _ (ag_h _ _ _ A bk)) as (_ & _ & E). rewrite E, (hown_view _ _ _ (ag_h _ _ _ A bk)). auto.
+  - intros h. pose proof (hview_eq _ _ (ag_h _ _ _ A h)) as (E1 & E2 & E3). unfold hp_alive. rewrite E1, E2, E3, Hbk.
+    apply S4.
+  - intros t'. destruct (N.eq_dec t' t) as [->|Hne]; [assumption|rewrite Ho by assumption; apply S7].
+  - intros t'. destruct (N.eq_dec t' t) as [->|Hne]; [assumption|]. rewrite Ho by assumption.
+    specialize (S8 t'). rewrite forallb_forall in S8. apply forallb_forall. intros x Hin.
+    apply (fr_ok_agree t c); [assumption|intros; assumption| |apply S8; assumption].
+    destruct x; cbn; auto; pose proof (mWin_ge c t' (fst b)) as G;
+      pose proof (sum_fr_In (win_fr (fst b)) _ _ Hin) as G'; cbn in G'; rewrite N.eqb_refl in G'; lia.
+Qed.
+
+(* ... and the delayed lists *)
 Lemma invS_step c c' t :
-  Inv c -> agree c c' ->
+  Inv c -> agree t c c' ->
   (forall t', t' <> t -> gett c' t' = gett c t') ->
   th_backing (gett c' t) = th_backing (gett c t) ->
   (forall p, pg_alive (getp c' p) = false -> getp c' p = pg0) ->
@@ -131,22 +164,73 @@ Lemma invS_step c c' t :
   InvS c'.
 Proof.
   intros I A Ho Hb Hdead Hdel Hs Hf Hh. destruct (i_S _ I) as [S1 S2 S3 S4 S5 S6 S7 S8 S9].
-  assert (Hbk : forall t', th_backing (gett c' t') = th_backing (gett c t')).
-  { intros t'. destruct (N.eq_dec t' t) as [->|Hne]; [assumption|rewrite Ho by assumption; reflexivity]. }
+  apply (invS_step_gen c c' t); auto.
+  - intros h. pose proof (hview_eq _ _ (ag_h _ _ _ A h)) as (E1 & E2 & E3). unfold hp_alive. rewrite E1, Hdel. apply S5.
+  - intros h. rewrite Hdel. specialize (S6 h). revert S6. apply forallb_impl. intros x. apply (del_ok_agree t). assumption.
+  - intros t'. destruct (N.eq_dec t' t) as [->|Hne]; [assumption|]. rewrite Ho by assumption.
+    apply (hd_okP_agree t c); auto.
+Qed.
+
+(* ------------------------------------------------------------------------------------------ *)
+(* steps that only change the stack / return register of the stepping thread                  *)
+(* ------------------------------------------------------------------------------------------ *)
+Lemma fr_ok_th c t th th' fr : th_backing th' = th_backing th -> fr_ok c t th' fr = fr_ok c t th fr.
+Proof. intros H. destruct fr; cbn [fr_ok]; rewrite ?H; reflexivity. Qed.
+
+Lemma th_set_backing th stk ret : th_backing (th_set th stk ret) = th_backing th.
+Proof. reflexivity. Qed.
+
+(* a pure thread update leaves used untouched, so also PF frames carry over *)
+Lemma agree_used_same tx c c' t th fr : agree tx c c' -> (forall p, pg_used (getp c' p) = pg_used (getp c p)) ->
+  fr_win_ok c fr ->
+  fr_ok c t th fr = true -> fr_ok c' t th fr = true.
+Proof.
+  intros A Hu Hw H. destruct fr; try (apply (fr_ok_agree tx c); [assumption|discriminate|assumption|assumption]).
+  cbn [fr_ok] in *. rewrite (own_view _ _ _ (ag_p _ _ _ A p)), Hu. assumption.
+Qed.
+
+Lemma step_stack_only c t stk' ret' :
+  Inv c ->
+  (forall P, cnt P (stk_blocks stk') = cnt P (stk_blocks (th_stk (gett c t)))) ->
+  (forall p, sum_fr (win_fr p) stk' = sum_fr (win_fr p) (th_stk (gett c t))) ->
+  (forall p, sum_fr (pw_fr p) stk' = sum_fr (pw_fr p) (th_stk (gett c t))) ->
+  (forall p, (cnt (onp p) (d1_stk (th_ret (gett c t)) (th_stk (gett c t))) <= cnt (onp p) (d1_stk ret' stk'))%nat
+             \/ (pg_flag (getp c p) <> NoD /\ pg_flag (getp c p) <> Freeing)) ->
+  (forall p h, absorbing (th_stk (gett c t)) p h = true -> absorbing stk' p h = true \/ mWin c p = 0%nat) ->
+  (forall h, hd_bottom (th_stk (gett c t)) h = true -> hd_bottom stk' h = true) ->
+  stk_ok stk' = true ->
+  forallb (fr_ok c t (gett c t)) stk' = true ->
+  hd_okP c (th_set (gett c t) stk' ret') ->
+  Inv (sett c t (th_set (gett c t) stk' ret')).
+Proof.
+  intros I Hb Hw Hp Hd Ha Hbot Hs Hf Hh.
+  set (th' := th_set (gett c t) stk' ret'). set (c' := sett c t th').
+  pose proof (i_wf _ I) as Hwf.
+  assert (A : agree t c c') by (apply agree_sett; assumption).
+  assert (Gt : gett c' t = th') by (unfold c'; rewrite gett_sett, N.eqb_refl; reflexivity).
   constructor.
-  - assumption.
-  - intros p Hp. pose proof (pview_eq _ _ (ag_p _ _ A p)) as (E1 & E2 & E3 & E4).
-    rewrite E1 in Hp. destruct (S2 p Hp) as [h [H1 H2]]. exists h. rewrite E4, E2. split; [assumption|].
-    rewrite (hown_view _ _ _ (ag_h _ _ A h)). assumption.
-  - intros t' bk. rewrite Hbk. intros H. destruct (S3 t' bk H) as [H1 H2].
-    pose proof (hview_eq _ _ (ag_h _ _ A bk)) as (_ & _ & E). rewrite E, (hown_view _ _ _ (ag_h _ _ A bk)). auto.
-  - intros h. pose proof (hview_eq _ _ (ag_h _ _ A h)) as (E1 & E2 & E3). unfold hp_alive. rewrite E1, E2, E3, Hbk.
-    apply S4.
-  - intros h. pose proof (hview_eq _ _ (ag_h _ _ A h)) as (E1 & E2 & E3). unfold hp_alive. rewrite E1, Hdel. apply S5.
-  - intros h. rewrite Hdel. specialize (S6 h). revert S6. apply forallb_impl. intros x. apply del_ok_agree. assumption.
-  - intros t'. destruct (N.eq_dec t' t) as [->|Hne]; [assumption|rewrite Ho by assumption; apply S7].
-  - intros t'. destruct (N.eq_dec t' t) as [->|Hne]; [assumption|]. rewrite Ho by assumption.
-    specialize (S8 t'). revert S8. apply forallb_impl. intros x. apply fr_ok_agree. assumption.
-  - intros t'. destruct (N.eq_dec t' t) as [->|Hne]; [assumption|]. rewrite Ho by assumption.
-    apply (hd_okP_agree c); auto.
+  - apply wf_sett; assumption.
+  - apply (invA_conserve c); auto.
+    + intros P. unfold c'. rewrite mF_sett. pose proof (mW_sett c Hwf t th' P) as E.
+      unfold th_W in E. cbn [th_held th_stk th' th_set] in E. rewrite Hb in E. lia.
+    + intros p. unfold c'. rewrite getp_sett. destruct (a_count _ (i_A _ I) p) as [E _]. rewrite E. f_equal.
+      pose proof (mW_sett c Hwf t th' (onp p)) as E2.
+      unfold th_W in E2. cbn [th_held th_stk th' th_set] in E2. rewrite Hb in E2. unfold c'. lia.
+    + intros p. apply (a_local _ (i_A _ I)).
+  - apply (invB_same c); auto.
+    + intros p. pose proof (mWin_sett c Hwf t th' p) as E. cbn [th_stk th' th_set] in E. rewrite Hw in E. unfold c'. lia.
+    + intros p. pose proof (mPw_sett c Hwf t th' p) as E. cbn [th_stk th' th_set] in E. rewrite Hp in E. unfold c'. lia.
+    + intros p. pose proof (mD_sett c Hwf t th' (onp p)) as E. cbn [th_stk th_ret th' th_set] in E.
+      destruct (Hd p) as [Hd'|Hd']; [left; unfold c'; lia|right; assumption].
+  - apply (invS_step c c' t); auto.
+    + intros t' Hne. unfold c'. rewrite gett_sett. apply N.eqb_neq in Hne. rewrite Hne. reflexivity.
+    + rewrite Gt. reflexivity.
+    + intros p. unfold c'. rewrite getp_sett. apply (s_dead _ (i_S _ I)).
+    + rewrite Gt. assumption.
+    + rewrite Gt. cbn [th_stk th' th_set]. rewrite forallb_forall in Hf. apply forallb_forall. intros fr Hin.
+      rewrite (fr_ok_th c' t (gett c t)) by reflexivity.
+      apply (agree_used_same t c); [assumption|reflexivity| |apply Hf; assumption].
+      destruct fr; cbn; auto; pose proof (mWin_ge c t (fst b)) as G;
+        pose proof (sum_fr_In (win_fr (fst b)) _ _ Hin) as G'; cbn in G'; rewrite N.eqb_refl in G'; rewrite <- Hw in G; lia.
+    + rewrite Gt. apply (hd_okP_agree t c); auto.
 Qed.
